@@ -116,12 +116,21 @@ func (p *scalarPool) scalar(ty string, row int) string {
 	}
 	switch {
 	case p.inner != "" && ty == p.inner:
-		if len(p.innerV) == 0 {
+		// distinct from every integer constant of the other columns as well: where the inner type
+		// has no unmarshaler for a codec its numerals are read by that codec's integer block
+		var free []int
+		for k, v := range p.innerV {
+			if !p.usedInt[v.String()] {
+				free = append(free, k)
+			}
+		}
+		if len(free) == 0 {
 			return "i:0"
 		}
-		k := p.g.rng.Intn(len(p.innerV))
+		k := free[p.g.rng.Intn(len(free))]
 		v := p.innerV[k]
 		p.innerV = append(p.innerV[:k:k], p.innerV[k+1:]...)
+		p.usedInt[v.String()] = true
 		return "i:" + v.String()
 	case ty == "string" || strings.HasPrefix(ty, "Str"):
 		return "s:" + hexOf2(p.str())
@@ -188,7 +197,12 @@ type traitShape struct {
 	nTypes      int
 	nConsts     int
 	selfCol     bool // a column whose type is ANOTHER enum of the file, generated by an earlier invocation
-	//                  (it unmarshals itself from JSON and YAML)
+	//                  (it unmarshals itself from the codecs ITS invocation switched on)
+	innerFlags  string // with selfCol: option letters of the inner enum's own invocation (c J Y T; "-" = all
+	//                    codecs), `h...` = a hand-written type with the unmarshalers the letters leave;
+	//                    "" = the inner enum shares the options of the outer one
+	innerKind   string // with selfCol: underlying kind of the inner type ("" = drawn from int, u8, i16, uint)
+	onlySelfParsable bool // with selfCol: the column of the inner type is the ONLY parsable one
 	big         bool // 64-bit integer columns draw constants >= 2^53 that float64 holds exactly
 	sharedNames bool // the types of the file share their trait NAMES (`_Name` on one, `Name` on the other)
 }
@@ -211,13 +225,22 @@ func (g *gen) shapedDef(sh traitShape) *Def {
 		}
 	}
 	// the pre-generated enum used as a trait type: plain, 24 values, one alias
-	innerName := ""
+	innerName, innerKind := "", ""
 	var innerItems []Item
 	var innerVals []*big.Int
 	if sh.selfCol {
 		innerName = fmt.Sprintf("E%di", n)
 		ikind := []string{"int", "u8", "i16", "uint"}[rng.Intn(4)]
-		inm := &namer{rng: rng, prefix: fmt.Sprintf("C%di", n), fold: strings.Contains(opts, "c"), used: map[string]bool{}}
+		if sh.innerKind != "" {
+			ikind = sh.innerKind
+		}
+		ifold := strings.Contains(opts, "c")
+		if sh.innerFlags != "" {
+			ifold = strings.Contains(sh.innerFlags, "c")
+			d.PreFlags = map[string]string{innerName: sh.innerFlags}
+		}
+		innerKind = ikind
+		inm := &namer{rng: rng, prefix: fmt.Sprintf("C%di", n), fold: ifold, used: map[string]bool{}}
 		form := "i"
 		for v := 0; v < 24; v++ {
 			innerItems = append(innerItems, Item{What: "const", T: innerName, Name: inm.next(), Val: bi(int64(v)), Form: form})
@@ -241,7 +264,7 @@ func (g *gen) shapedDef(sh traitShape) *Def {
 		var fams []string
 		if len(sh.fixedCols) > 0 {
 			fams = sh.fixedCols
-		} else {
+		} else if sh.maxCols > 0 {
 			nCols := 1 + rng.Intn(sh.maxCols)
 			perm := rng.Perm(len(sh.families))
 			for j := 0; j < nCols && j < len(sh.families); j++ {
@@ -263,7 +286,11 @@ func (g *gen) shapedDef(sh traitShape) *Def {
 			td.Cols = append(td.Cols, c)
 		}
 		if sh.selfCol {
-			c := Col{Name: fmt.Sprintf("Skin%d%c", n, 'a'+ti), Ty: innerName, Fam: "self:" + innerName}
+			iflags := opts
+			if sh.innerFlags != "" {
+				iflags = sh.innerFlags
+			}
+			c := Col{Name: fmt.Sprintf("Skin%d%c", n, 'a'+ti), Ty: innerName, Fam: "own:" + innerName + ":" + innerKind + ":" + methodLetters(iflags)}
 			if sh.sharedNames {
 				c.Name = fmt.Sprintf("Skin%d", n)
 				c.Spelling = []string{"u", "x"}[ti%2]
@@ -272,7 +299,11 @@ func (g *gen) shapedDef(sh traitShape) *Def {
 		}
 		// parsable subset
 		for _, c := range td.Cols {
-			if sh.allParsable || rng.Intn(3) != 0 || strings.HasPrefix(c.Fam, "self:") {
+			_, _, own := innerOfFam(c.Fam)
+			if sh.onlySelfParsable && !own {
+				continue
+			}
+			if sh.allParsable || rng.Intn(3) != 0 || own {
 				dup := false
 				for _, p := range d.Parsable {
 					if p == c.Name {
@@ -493,6 +524,9 @@ func (g *gen) emitC05(defs []*Def, domain bool) {
 		g.nDefs++
 		defLines := append(d.Lines(), "gn gen")
 		for _, td := range d.Types {
+			if d.isHand(td.Name) {
+				continue // a hand-written trait type is no enum: nothing of C05 to ask about it
+			}
 			g.nTypes++
 			consts := d.constsOf(td.Name)
 			hdr := fmt.Sprintf("case gn %d %s", g.nDefs, td.Name)
@@ -501,7 +535,7 @@ func (g *gen) emitC05(defs []*Def, domain bool) {
 			for _, p := range d.Parsable {
 				parsable[p] = true
 			}
-			for _, codec := range codecsOf(d.Opts) {
+			for _, codec := range codecsOf(d.flagsOf(td.Name)) {
 				lines := append([]string{hdr + " " + codec}, defLines...)
 				// Values()/StringValues() first: the probe mutates the returned slices in place
 				// (caller-owned), every later answer must be unaffected
@@ -584,10 +618,14 @@ func (g *gen) emitC05(defs []*Def, domain bool) {
 					}
 				}
 				for j, c := range td.Cols {
-					if !strings.HasPrefix(c.Fam, "self:") {
+					inner, _, own := innerOfFam(c.Fam)
+					if !own {
 						continue
 					}
-					ip := primaryOf(d, strings.TrimPrefix(c.Fam, "self:"))
+					// the trait type's own documents: names of its values (all aliases), near misses; its
+					// numerals are among the trait constants above. Which of the two decodes depends on
+					// the unmarshalers the type has for THIS codec.
+					ip := primaryOf(d, inner)
 					for _, it := range consts {
 						if j < len(it.TVals) {
 							_, p, _ := strings.Cut(it.TVals[j], ":")
@@ -595,7 +633,13 @@ func (g *gen) emitC05(defs []*Def, domain bool) {
 								sdoc(pr.Name)
 								sdoc(pr.Name + "x")
 								sdoc(strings.ToLower(pr.Name))
+								sdoc(strings.ToUpper(pr.Name))
 							}
+						}
+					}
+					for _, it := range d.constsOf(inner) {
+						if _, used := ip[it.Val.String()]; used && ip[it.Val.String()].Name != it.Name {
+							sdoc(it.Name) // an alias of a used inner value
 						}
 					}
 				}
@@ -612,7 +656,23 @@ func (g *gen) emitC05(defs []*Def, domain bool) {
 				np := 0
 				for _, c := range td.Cols {
 					if parsable[c.Name] {
-						tags = append(tags, "parsable:"+c.Fam)
+						if inner, m, own := innerOfFam(c.Fam); own {
+							// the trait type by its unmarshalers and where it stands, not by its serial name
+							alone := "alone-in-its-integer-block"
+							for _, c2 := range td.Cols {
+								if c2.Name != c.Name && parsable[c2.Name] && len(c2.Fam) > 1 && (c2.Fam[0] == 's' || c2.Fam[0] == 'u') && c2.Fam != "ustr" &&
+									(c2.Fam[0] == 'u') == isUnsignedKind(d.kindOf(inner)) {
+									alone = "next-to-an-integer-trait"
+								}
+							}
+							hand := "generated"
+							if d.isHand(inner) {
+								hand = "hand-written"
+							}
+							tags = append(tags, "parsable:own:"+m+":"+hand+":"+alone)
+						} else {
+							tags = append(tags, "parsable:"+c.Fam)
+						}
 						np++
 					}
 				}
@@ -669,6 +729,9 @@ func (g *gen) emitC12(defs []*Def, domain bool) {
 			parsable[p] = true
 		}
 		for _, td := range d.Types {
+			if d.isHand(td.Name) {
+				continue
+			}
 			g.nTypes++
 			consts := d.constsOf(td.Name)
 			hdr := fmt.Sprintf("case gn %d %s", g.nDefs, td.Name)
@@ -716,8 +779,18 @@ func (g *gen) emitC12(defs []*Def, domain bool) {
 					continue
 				}
 				lines := append([]string{hdr + " decode " + c.Name}, defLines...)
-				codecs := []string{"json", "yaml"}
-				if c.Fam == "ustr" || c.Fam == "nstr" {
+				nHdr := len(lines)
+				has := map[string]bool{}
+				for _, cd := range codecsOf(d.flagsOf(td.Name)) {
+					has[cd] = true
+				}
+				var codecs []string // the decoders the type was generated with
+				for _, cd := range []string{"json", "yaml"} {
+					if has[cd] {
+						codecs = append(codecs, cd)
+					}
+				}
+				if (c.Fam == "ustr" || c.Fam == "nstr") && has["text"] {
 					codecs = append(codecs, "text")
 				}
 				for _, it := range consts {
@@ -729,10 +802,11 @@ func (g *gen) emitC12(defs []*Def, domain bool) {
 						g.nParse++
 					}
 				}
-				if strings.HasPrefix(c.Fam, "self:") {
-					// the trait type decodes itself from its NAME: bare numerals of its values, near-miss
-					// names and the name as text must be rejected (or belong to another trait's constant)
-					inner := strings.TrimPrefix(c.Fam, "self:")
+				if inner, _, own := innerOfFam(c.Fam); own {
+					// the trait type decodes itself from its NAME where it has the codec's unmarshaler and
+					// is a plain integer type where it has not: per codec the OTHER document (bare numeral
+					// resp. name), near-miss names and the name as text must be rejected (or belong to
+					// another trait's constant); compared with the decoder model
 					ip := primaryOf(d, inner)
 					for _, it := range consts {
 						if j >= len(it.TVals) {
@@ -743,12 +817,15 @@ func (g *gen) emitC12(defs []*Def, domain bool) {
 						if !ok {
 							continue
 						}
-						for _, codec := range []string{"json", "yaml"} {
+						for _, codec := range codecs {
 							lines = append(lines, "gn dec "+td.Name+" "+codec+" n:"+p,
+								"gn dec "+td.Name+" "+codec+" s:"+hexOf2(pr.Name),
 								"gn dec "+td.Name+" "+codec+" s:"+hexOf2(pr.Name+"x"),
 								"gn dec "+td.Name+" "+codec+" s:"+hexOf2(strings.ToLower(pr.Name)))
 						}
-						lines = append(lines, "gn dec "+td.Name+" text s:"+hexOf2(pr.Name))
+						if has["text"] {
+							lines = append(lines, "gn dec "+td.Name+" text s:"+hexOf2(pr.Name), "gn dec "+td.Name+" text s:"+hexOf2(p))
+						}
 					}
 				}
 				key := ""
@@ -757,7 +834,17 @@ func (g *gen) emitC12(defs []*Def, domain bool) {
 					// families the pinned template has no decoder branch for, under their own key
 					key = "C12:decode:" + ty + "-trait"
 				}
-				g.r.Add(hx.Case{Lines: lines, Domain: domain, Nontrivial: true, Tags: []string{"decode:" + c.Fam + ":" + ty}, Key: key})
+				if len(lines) == nHdr {
+					continue // the type has no decoder this column could be read by
+				}
+				famTag := c.Fam
+				if inner, m, own := innerOfFam(c.Fam); own {
+					famTag, ty = "own:"+m, "generated-enum"
+					if d.isHand(inner) {
+						ty = "hand-written"
+					}
+				}
+				g.r.Add(hx.Case{Lines: lines, Domain: domain, Nontrivial: true, Tags: []string{"decode:" + famTag + ":" + ty}, Key: key})
 			}
 		}
 	}
